@@ -5,6 +5,7 @@ import (
 	"fmt"
 	"sort"
 	"strings"
+	"time"
 
 	"github.com/janelia-flyem/dvid/datastore"
 	"github.com/janelia-flyem/dvid/datatype/annotation"
@@ -302,7 +303,76 @@ func sign(n int) int {
 
 // c06Isolation: histories of instance creation, writes, deletion and re-creation over the real server
 // (Badger).  Oracle: no operation on one instance changes what another returns; a new instance is empty.
+// c06RecreateWhileDeleting: an instance holding many keys is deleted (the key deletion runs in the background) and
+// an instance of the same name is created again as early as the server allows; whatever the timing, the
+// re-created instance must stay in the repo and keep what is written to it while and after its predecessor's keys
+// are removed, and must not see any of the predecessor's keys.
+func c06RecreateWhileDeleting(c *Ctx) {
+	OpenServer()
+	defer CloseServer()
+	uuid := NewRepo()
+	n := 20000
+	if c.Thorough {
+		n = 60000
+	}
+	if resp := NewInstance(uuid, "keyvalue", "big", nil); !resp.OK() {
+		c.Report("H", "C06 cannot-create-instance", resp.String(), "big")
+		return
+	}
+	d, err := datastore.GetDataByUUIDName(dvid.UUID(uuid), "big")
+	if err != nil {
+		return
+	}
+	kvd, ok := d.(interface {
+		PutData(ctx storage.Context, keyStr string, value []byte) error
+	})
+	v, _ := datastore.VersionFromUUID(dvid.UUID(uuid))
+	ctx := datastore.NewVersionedCtx(d, v)
+	for i := 0; i < n; i++ {
+		k := fmt.Sprintf("old%06d", i)
+		if ok {
+			kvd.PutData(ctx, k, []byte("old value"))
+		} else {
+			Post(fmt.Sprintf("node/%s/big/key/%s", uuid, k), []byte("old value"))
+		}
+	}
+	if err := datastore.DeleteDataByName(dvid.UUID(uuid), "big", ""); err != nil {
+		c.Report("H", "C06 cannot-delete-instance", err.Error(), "")
+		return
+	}
+	refusals := 0
+	created := false
+	t0 := time.Now()
+	for time.Since(t0) < 20*time.Second {
+		if resp := NewInstance(uuid, "keyvalue", "big", nil); resp.OK() {
+			created = true
+			break
+		}
+		refusals++
+		time.Sleep(20 * time.Millisecond)
+	}
+	c.Eval(fmt.Sprintf("recreate-while-deleting refusals=%d", refusals), true)
+	c.Count("recreate-while-deleting")
+	if !created {
+		c.Report("O", "C06 recreate-refused", "an instance name cannot be used again 20 s after the instance holding it was deleted", fmt.Sprintf("%d keys, %d refusals", n, refusals))
+		return
+	}
+	Post(fmt.Sprintf("node/%s/big/key/mine", uuid), []byte("new value"))
+	hist := fmt.Sprintf("instance big with %d keys deleted; re-created after %d refused attempts (%.2fs); key mine written", n, refusals, time.Since(t0).Seconds())
+	for i := 0; i < 40; i++ {
+		g := Get(fmt.Sprintf("node/%s/big/key/mine", uuid))
+		ks := Get(fmt.Sprintf("node/%s/big/keys", uuid))
+		if !g.OK() || string(g.Body) != "new value" || strings.TrimSpace(string(ks.Body)) != `["mine"]` {
+			c.Report("O", "C06 recreated-instance-disturbed", "an instance re-created under the name of a deleted one loses its place in the repo or its data, or shows keys of its predecessor",
+				fmt.Sprintf("%s\n%.2fs later: GET key/mine -> %s ; GET keys -> %s", hist, float64(i)*0.1, g, trunc(string(ks.Body))))
+			return
+		}
+		time.Sleep(100 * time.Millisecond)
+	}
+}
+
 func c06Isolation(c *Ctx) {
+	c06RecreateWhileDeleting(c)
 	OpenServer()
 	defer CloseServer()
 	r := c.Rng.Fork()
